@@ -237,7 +237,9 @@ impl TypeChecker {
         }
 
         // Check required methods (those without body)
-        for (method_name, method_info) in &trait_info.methods {
+        let mut sorted_methods: Vec<_> = trait_info.methods.iter().collect();
+        sorted_methods.sort_by(|a, b| a.0.cmp(b.0));
+        for (method_name, method_info) in sorted_methods {
             if !method_info.has_body {
                 // Prefer symbol-table method info so we can validate signatures.
                 let model_info = self
@@ -382,7 +384,9 @@ impl TypeChecker {
         }
 
         // Check required methods (those without body)
-        for (method_name, method_info) in &trait_info.methods {
+        let mut sorted_methods: Vec<_> = trait_info.methods.iter().collect();
+        sorted_methods.sort_by(|a, b| a.0.cmp(b.0));
+        for (method_name, method_info) in sorted_methods {
             if !method_info.has_body {
                 match class_info.as_ref().and_then(|ci| ci.methods.get(method_name)) {
                     None => self
